@@ -340,6 +340,51 @@ def speculative(ctx, bases):
     return fails, stats
 
 
+def arrow_chains(ctx):
+    """pipelines of 2..7 stages: `v -> f1(a) -> f2(b) -> ...` means `...f2(f1(v, a), b)...`; written with arrows, with
+    arrows and redundant parentheses around every prefix, and as plain nested calls the same Lua"""
+    r = vlib.rng(ctx.seed, "c14-chains")
+    fails, n = [], 0
+    cases, meta = [], []
+    for stages in range(2, 8):
+        for rep in range(2 if ctx.tier == "quick" else 10):
+            fs = ["g%d" % i for i in range(stages)]
+            r.shuffle(fs)
+            args = [[str(r.randint(1, 9)) for _ in range(r.randint(0, 2))] for _ in fs]
+            defs = "".join("g%d :: fn a: int%s -> int do a * %d + %d end\n" % (i, "".join(", p%d: int" % j for j in range(len(args[fs.index("g%d" % i)]))), i + 2, i)
+                           for i in range(stages))
+            plain = "7"
+            chain = "7"
+            paren = "7"
+            for f, a in zip(fs, args):
+                plain = "%s(%s)" % (f, ", ".join([plain] + a))
+                chain = "%s -> %s(%s)" % (chain, f, ", ".join(a))
+                paren = "(%s -> %s(%s))" % (paren, f, ", ".join(a))
+            for form, e in (("plain", plain), ("chain", chain), ("paren", paren), ("stmt", None)):
+                if form == "stmt":
+                    body = "    x := 0\n    " + chain + "\n"        # the pipeline as an expression statement
+                    ref = "    x := 0\n    " + plain + "\n"
+                    cases += [compile_case("/main.sy", defs + "start :: fn do\n" + ref + "end\n", "nostd"),
+                              compile_case("/main.sy", defs + "start :: fn do\n" + body + "end\n", "nostd")]
+                    meta.append((stages, "stmt", ref, body, defs))
+                else:
+                    cases.append(compile_case("/main.sy", defs + "start :: fn do\n    x := " + e + "\n    x <=> 1\nend\n", "nostd"))
+            meta.append((stages, "expr", plain, (chain, paren), defs))
+    out = vlib.harness("compile", cases, timeout_s=20)
+    # layout of `out`: per (stages, rep): plain, chain, paren, stmt-ref, stmt-chain
+    for k in range(0, len(out), 5):
+        o = [outcome(x) for x in out[k:k + 5]]
+        n += 1
+        txt = [vlib.unhex(c.split("=", 1)[1].split("\t")[0]).decode() for c in cases[k:k + 5]]
+        for a, b, what in ((0, 1, "arrow pipeline vs nested calls"), (0, 2, "parenthesised arrow pipeline vs nested calls"),
+                           (3, 4, "arrow pipeline as a statement vs nested calls")):
+            if o[a][0] == "OK" and o[a] != o[b]:
+                fails.append({"base": "chain", "variant": "arrow-chain", "class": None, "program": None, "flags": "nostd", "main": "/main.sy",
+                              "what": "%s: %s" % (what, "rejected" if o[b][0] != "OK" else "different Lua"),
+                              "base_text": txt[a], "variant_text": txt[b]})
+    return fails, {"pipelines": n, "differences": len(fails)}
+
+
 def noise_gen_case(text):
     return "\t".join(["nostd", "/main.sy", "/main.sy=" + vlib.hexs(text)])
 
@@ -445,8 +490,10 @@ def always(ctx):
     bases = getattr(ctx, "c14_bases", None) or gen_bases(ctx)
     failures, known_hits, stats = oracle(ctx, bases)
     sp_fail, sp_stats = speculative(ctx, bases)
-    failures = failures + sp_fail
+    ch_fail, ch_stats = arrow_chains(ctx)
+    failures = failures + sp_fail + ch_fail
     stats["speculative_breaks"] = sp_stats
+    stats["arrow_chains"] = ch_stats
     ctx.c14_oracle = (failures, known_hits)
     if failures:
         f = failures[0]
